@@ -84,10 +84,44 @@ func Inventory(repo string) (map[string]bool, error) {
 				inv[k] = true
 				lastSigs[k] = sigOf(fd)
 			}
+			if gd, ok := d.(*ast.GenDecl); ok && gd.Tok == token.TYPE {
+				for _, sp := range gd.Specs {
+					if ts, ok := sp.(*ast.TypeSpec); ok && ts.TypeParams == nil {
+						k := typeKey(filepath.ToSlash(rel), ts.Name.Name)
+						inv[k] = true
+						lastSigs[k] = typeSigOf(ts)
+					}
+				}
+			}
 		}
 		return nil
 	})
 	return inv, err
+}
+
+// typeKey names a type declaration; it cannot collide with a function key (no receiver is called "type ").
+func typeKey(relDir, name string) string { return relDir + "|type |" + name }
+
+// typeSigOf: "struct{T1;T2;...}#n1,n2,..." for a struct (embedded fields have the name "-"), the type expression
+// otherwise. The part before '#' identifies a renamed type, the part after it gives renamed fields their names back.
+func typeSigOf(ts *ast.TypeSpec) string {
+	st, ok := ts.Type.(*ast.StructType)
+	if !ok {
+		return types.ExprString(ts.Type)
+	}
+	var tys, names []string
+	for _, f := range st.Fields.List {
+		if len(f.Names) == 0 {
+			tys = append(tys, types.ExprString(f.Type))
+			names = append(names, "-")
+			continue
+		}
+		for _, n := range f.Names {
+			tys = append(tys, types.ExprString(f.Type))
+			names = append(names, n.Name)
+		}
+	}
+	return "struct{" + strings.Join(tys, ";") + "}#" + strings.Join(names, ",")
 }
 
 // lastSigs holds the signatures (parameter and result types, names dropped) found by the latest Inventory call,
@@ -166,6 +200,16 @@ func NewFunctions(repo string, inv map[string]bool) []string {
 	var out []string
 	for k := range cur {
 		name := k[strings.LastIndexByte(k, '|')+1:]
+		if strings.Contains(k, "|type |") {
+			// a new type is not a helper to fold, but a renamed one (or renamed fields) makes the un-rename pass run
+			switch {
+			case !inv[k] && !ast.IsExported(name):
+				out = append(out, k)
+			case inv[k] && refSigs[k] != "" && lastSigs[k] != refSigs[k] && sigShape(lastSigs[k]) == sigShape(refSigs[k]):
+				out = append(out, k)
+			}
+			continue
+		}
 		if !inv[k] && !ast.IsExported(name) {
 			out = append(out, k)
 		}
@@ -196,7 +240,7 @@ func Overlay(repo, modPath string, env []string, inv map[string]bool) (*Result, 
 	// (0) a new unexported function with the signature of exactly one function that has disappeared from the same
 	// package (same receiver) is that function renamed: it gets its reference name back, so that rules, floors and
 	// known-finding keys that name it keep applying
-	if renames := detectRenames(repo, inv); len(renames) > 0 {
+	if renames := detectRenames(repo, inv); !renames.empty() {
 		cfg := &packages.Config{
 			Mode: packages.NeedName | packages.NeedFiles | packages.NeedCompiledGoFiles | packages.NeedImports | packages.NeedDeps | packages.NeedTypes | packages.NeedSyntax | packages.NeedTypesInfo,
 			Dir:  repo,
@@ -209,14 +253,6 @@ func Overlay(repo, modPath string, env []string, inv map[string]bool) (*Result, 
 						return res, err
 					}
 				}
-			}
-		}
-		// the inventory of the overlaid tree: renamed-back functions are no longer new
-		for nk, old := range renames {
-			parts := strings.Split(nk, "|")
-			if len(parts) == 3 {
-				inv = cloneWith(inv, Key(parts[0], parts[1], parts[2]))
-				_ = old
 			}
 		}
 	}
@@ -1617,24 +1653,39 @@ func wrapsNonNil(pk *packages.Package, wd *ast.FuncDecl, param string) bool {
 	return ok && n > 0
 }
 
-func cloneWith(inv map[string]bool, extra string) map[string]bool {
-	out := make(map[string]bool, len(inv)+1)
-	for k, v := range inv {
-		out[k] = v
-	}
-	out[extra] = true
-	return out
+// renameSet is what the un-rename pass restores: functions and types by key, and the field names of structs.
+type renameSet struct {
+	funcs  map[string]string   // new function key -> reference name
+	types  map[string]string   // new type key -> reference name
+	fields map[string][]string // current type key -> reference field names by position ("-" = embedded)
 }
 
-// detectRenames: new key -> reference name, for new unexported functions whose signature equals that of exactly one
-// function of the same directory and receiver that is in the reference inventory and no longer in the tree.
-func detectRenames(repo string, inv map[string]bool) map[string]string {
+func (r renameSet) empty() bool { return len(r.funcs)+len(r.types)+len(r.fields) == 0 }
+
+func sigShape(sig string) string {
+	if i := strings.IndexByte(sig, '#'); i >= 0 {
+		return sig[:i]
+	}
+	return sig
+}
+
+func sigNames(sig string) []string {
+	if i := strings.IndexByte(sig, '#'); i >= 0 {
+		return strings.Split(sig[i+1:], ",")
+	}
+	return nil
+}
+
+// detectRenames compares the tree with the reference inventory: an unexported type (function) that is new and has the
+// shape (signature) of exactly one type (function of the same receiver) that disappeared from the same directory is
+// that one renamed; a struct whose field types are unchanged and whose field names differ had fields renamed.
+func detectRenames(repo string, inv map[string]bool) renameSet {
+	rs := renameSet{funcs: map[string]string{}, types: map[string]string{}, fields: map[string][]string{}}
 	cur, err := Inventory(repo)
 	if err != nil {
-		return nil
+		return rs
 	}
 	curSigs := lastSigs
-	out := map[string]string{}
 	taken := map[string]bool{}
 	var added []string
 	for k := range cur {
@@ -1643,68 +1694,186 @@ func detectRenames(repo string, inv map[string]bool) map[string]string {
 		}
 	}
 	sort.Strings(added)
+	split := func(k string) (dir, recv, name string, ok bool) {
+		p := strings.Split(k, "|")
+		if len(p) != 3 {
+			return "", "", "", false
+		}
+		return p[0], p[1], p[2], true
+	}
+	// types first
+	typeOld := map[string]string{} // dir|newName -> oldName
 	for _, nk := range added {
-		np := strings.Split(nk, "|")
-		if len(np) != 3 || ast.IsExported(np[2]) {
+		dir, recv, name, ok := split(nk)
+		if !ok || recv != "type " || ast.IsExported(name) {
 			continue
 		}
 		var match []string
-		for ok := range inv {
-			if cur[ok] || taken[ok] {
+		for ok2 := range inv {
+			d2, r2, n2, ok3 := split(ok2)
+			if !ok3 || cur[ok2] || taken[ok2] || r2 != "type " || d2 != dir || ast.IsExported(n2) {
 				continue
 			}
-			op := strings.Split(ok, "|")
-			if len(op) == 3 && op[0] == np[0] && op[1] == np[1] && !ast.IsExported(op[2]) && refSigs[ok] != "" && refSigs[ok] == curSigs[nk] {
-				match = append(match, ok)
+			if refSigs[ok2] != "" && sigShape(refSigs[ok2]) == sigShape(curSigs[nk]) {
+				match = append(match, ok2)
 			}
 		}
 		if len(match) == 1 {
-			out[nk] = strings.Split(match[0], "|")[2]
+			_, _, oldName, _ := split(match[0])
+			rs.types[nk] = oldName
+			typeOld[dir+"|"+name] = oldName
+			taken[match[0]] = true
+			if rn, cn := sigNames(refSigs[match[0]]), sigNames(curSigs[nk]); len(rn) == len(cn) && strings.Join(rn, ",") != strings.Join(cn, ",") {
+				rs.fields[nk] = rn
+			}
+		}
+	}
+	// fields of types that kept their name
+	for k := range cur {
+		_, recv, _, ok := split(k)
+		if !ok || recv != "type " || !inv[k] || refSigs[k] == "" || refSigs[k] == curSigs[k] {
+			continue
+		}
+		if sigShape(refSigs[k]) == sigShape(curSigs[k]) {
+			if rn, cn := sigNames(refSigs[k]), sigNames(curSigs[k]); len(rn) == len(cn) {
+				rs.fields[k] = rn
+			}
+		}
+	}
+	// functions and methods (the receiver read through the type renames)
+	for _, nk := range added {
+		dir, recv, name, ok := split(nk)
+		if !ok || recv == "type " || ast.IsExported(name) {
+			continue
+		}
+		refRecv := recv
+		if o, isRenamed := typeOld[dir+"|"+recv]; isRenamed {
+			refRecv = o
+		}
+		if inv[Key(dir, refRecv, name)] {
+			continue // the method of a renamed type: it is back once the type is
+		}
+		var match []string
+		for ok2 := range inv {
+			d2, r2, n2, ok3 := split(ok2)
+			if !ok3 || r2 == "type " || d2 != dir || r2 != refRecv || ast.IsExported(n2) || taken[ok2] {
+				continue
+			}
+			// gone from the tree (under the current receiver name as well)
+			if cur[ok2] || cur[Key(dir, recv, n2)] {
+				continue
+			}
+			if refSigs[ok2] != "" && refSigs[ok2] == curSigs[nk] {
+				match = append(match, ok2)
+			}
+		}
+		if len(match) == 1 {
+			_, _, oldName, _ := split(match[0])
+			rs.funcs[nk] = oldName
 			taken[match[0]] = true
 		}
 	}
-	return out
+	return rs
 }
 
-// unrename rewrites every identifier that denotes a renamed function of pk back to its reference name.
-func unrename(repo string, pk *packages.Package, renames map[string]string, res *Result) error {
+// unrename rewrites every identifier that denotes a renamed function, type or field of pk back to its reference name.
+func unrename(repo string, pk *packages.Package, rs renameSet, res *Result) error {
 	fset := pk.Fset
 	info := pk.TypesInfo
 	objs := map[types.Object]string{}
+	relOf := func(pos token.Pos) string {
+		rel, _ := filepath.Rel(repo, filepath.Dir(fset.PositionFor(pos, false).Filename))
+		return filepath.ToSlash(rel)
+	}
 	for _, f := range pk.Syntax {
-		fname := fset.PositionFor(f.Pos(), false).Filename
-		if strings.HasSuffix(fname, "_test.go") {
+		if strings.HasSuffix(fset.PositionFor(f.Pos(), false).Filename, "_test.go") {
 			continue
 		}
-		rel, _ := filepath.Rel(repo, filepath.Dir(fname))
 		for _, d := range f.Decls {
-			fd, ok := d.(*ast.FuncDecl)
-			if !ok {
-				continue
-			}
-			nk := Key(filepath.ToSlash(rel), recvName(fd), fd.Name.Name)
-			old, ok := renames[nk]
-			if !ok {
-				continue
-			}
-			obj := info.Defs[fd.Name]
-			if obj == nil {
-				continue
-			}
-			// the reference name must be free
-			if fd.Recv == nil {
-				if pk.Types.Scope().Lookup(old) != nil {
+			switch x := d.(type) {
+			case *ast.FuncDecl:
+				nk := Key(relOf(x.Pos()), recvName(x), x.Name.Name)
+				old, ok := rs.funcs[nk]
+				if !ok {
 					continue
 				}
-			} else if fo, isF := obj.(*types.Func); isF {
-				if sig, isSig := fo.Type().(*types.Signature); isSig && sig.Recv() != nil {
-					if o, _, _ := types.LookupFieldOrMethod(sig.Recv().Type(), true, pk.Types, old); o != nil {
+				obj := info.Defs[x.Name]
+				if obj == nil {
+					continue
+				}
+				if x.Recv == nil {
+					if pk.Types.Scope().Lookup(old) != nil {
 						continue
+					}
+				} else if fo, isF := obj.(*types.Func); isF {
+					if sig, isSig := fo.Type().(*types.Signature); isSig && sig.Recv() != nil {
+						if o, _, _ := types.LookupFieldOrMethod(sig.Recv().Type(), true, pk.Types, old); o != nil {
+							continue
+						}
+					}
+				}
+				objs[obj] = old
+				res.Renamed = append(res.Renamed, nk+" -> "+old)
+			case *ast.GenDecl:
+				if x.Tok != token.TYPE {
+					continue
+				}
+				for _, sp := range x.Specs {
+					ts, ok := sp.(*ast.TypeSpec)
+					if !ok {
+						continue
+					}
+					tk := typeKey(relOf(ts.Pos()), ts.Name.Name)
+					tn, _ := info.Defs[ts.Name].(*types.TypeName)
+					if tn == nil {
+						continue
+					}
+					if old, ok := rs.types[tk]; ok && pk.Types.Scope().Lookup(old) == nil {
+						objs[tn] = old
+						res.Renamed = append(res.Renamed, tk+" -> "+old)
+						// embedded fields are named after their type
+						for _, f2 := range pk.Syntax {
+							ast.Inspect(f2, func(n ast.Node) bool {
+								st, ok := n.(*ast.StructType)
+								if !ok {
+									return true
+								}
+								for _, fl := range st.Fields.List {
+									if len(fl.Names) != 0 {
+										continue
+									}
+									t := fl.Type
+									if se, ok := t.(*ast.StarExpr); ok {
+										t = se.X
+									}
+									if id, ok := t.(*ast.Ident); ok && info.Uses[id] == types.Object(tn) {
+										if fv, ok := info.Implicits[fl].(*types.Var); ok {
+											objs[fv] = old
+										} else if named, ok := info.TypeOf(st).(*types.Struct); ok {
+											for i := 0; i < named.NumFields(); i++ {
+												if named.Field(i).Embedded() && named.Field(i).Name() == tn.Name() {
+													objs[named.Field(i)] = old
+												}
+											}
+										}
+									}
+								}
+								return true
+							})
+						}
+					}
+					if names, ok := rs.fields[tk]; ok {
+						if st, ok := tn.Type().Underlying().(*types.Struct); ok && st.NumFields() == len(names) {
+							for i := 0; i < st.NumFields(); i++ {
+								if names[i] != "-" && !st.Field(i).Embedded() && st.Field(i).Name() != names[i] {
+									objs[st.Field(i)] = names[i]
+									res.Renamed = append(res.Renamed, tk+"."+st.Field(i).Name()+" -> "+names[i])
+								}
+							}
+						}
 					}
 				}
 			}
-			objs[obj] = old
-			res.Renamed = append(res.Renamed, nk+" -> "+old)
 		}
 	}
 	if len(objs) == 0 {
@@ -1721,7 +1890,7 @@ func unrename(repo string, pk *packages.Package, renames map[string]string, res 
 			if obj == nil {
 				obj = info.Uses[id]
 			}
-			if old, ok := objs[obj]; ok {
+			if old, ok := objs[obj]; ok && id.Name != old {
 				file := fset.PositionFor(id.Pos(), false).Filename
 				edits[file] = append(edits[file], edit{fset.PositionFor(id.Pos(), false).Offset, fset.PositionFor(id.End(), false).Offset, old})
 			}
